@@ -12,7 +12,7 @@
 From Coq Require Import List ZArith Bool Lia.
 Import ListNotations.
 From V Require Import Valid.Hier Valid.Walk Valid.FlatRegion Model.Graph Model.Edits Model.Edits2 Model.Edits3
-                      Model.JoinPath Model.Refine.
+                      Model.JoinPath Model.Refine Model.TableSpec.
 Local Open Scope Z_scope.
 
 Lemma enter_flat_leaf h t n f : find h t = Some n -> is_region n = false -> enter_flat h (S f) t = Some t.
@@ -24,12 +24,15 @@ Lemma kind_of_not_region b : match kind_of b with KRegion _ _ _ _ _ _ => False |
 Proof. unfold kind_of. destruct (e_kind b) as [c| |]; [destruct (Z.eqb c 100)|..]; exact I. Qed.
 
 Lemma replace_jt_kind b jt b' : replace_jt b jt = Some b' ->
-  (forall c v t, e_kind b <> EBranch c v t) -> e_kind b' = e_kind b.
+  match e_kind b with
+  | EBranch c v t => exists t', table_rewrite t (e_jt b) jt (e_jt b) 0%nat [] = Some t' /\ e_kind b' = EBranch c v t'
+  | k => e_kind b' = k
+  end.
 Proof.
-  unfold replace_jt. destruct (e_kind b) as [c|a|c v t] eqn:Ek; intros H Hnb.
+  unfold replace_jt. destruct (e_kind b) as [c|a|c v t] eqn:Ek; intros H.
   - injection H as <-. reflexivity.
   - injection H as <-. reflexivity.
-  - exfalso. eapply Hnb. reflexivity.
+  - destruct (table_rewrite t (e_jt b) jt (e_jt b) 0%nat []) as [t'|]; [|discriminate]. injection H as <-. eauto.
 Qed.
 
 Section CbPath.
@@ -39,7 +42,7 @@ Hypothesis Hpreds : NoDup preds /\ ~ In new preds.
 Hypothesis Hnames : NoDup names /\
   forall a, In a names -> efind g a = None /\ a <> new /\ ~ In a preds /\ ~ In a Ss /\ a <> top.
 Hypothesis Hpjt : forall p b, In p preds -> efind g p = Some b ->
-  NoDup (e_jt b) /\ (forall a, In a names -> ~ In a (e_jt b)) /\ (forall c v t, e_kind b <> EBranch c v t).
+  NoDup (e_jt b) /\ (forall a, In a names -> ~ In a (e_jt b)) /\ (forall c v t, e_kind b = EBranch c v t -> NoDup (map fst t)).
 Hypothesis Htop : ~ In top (ekeys g) /\ top <> new.
 Hypothesis Hnew : efind g new = None.
 Hypothesis Hclosed : forall x b t, efind g x = Some b -> In t (e_jt b) -> In t (ekeys g).
@@ -166,8 +169,8 @@ Proof.
   destruct (in_dec Z.eq_dec x preds) as [Hin|Hnin].
   - (* a predecessor: same kind, successors position by position *)
     destruct (Hp x Hin) as [b0 [b' [H1 [H2 [Hlen [_ [Hrj [_ Hpos]]]]]]]]. rewrite Hb in H1. injection H1 as <-.
-    destruct (Hpjt x b Hin Hb) as [_ [_ Hnb]].
-    pose proof (replace_jt_kind b _ b' Hrj Hnb) as Hkind.
+    destruct (Hpjt x b Hin Hb) as [Hndjt [Hnojt Hkeys]].
+    pose proof (replace_jt_kind b _ b' Hrj) as Hkind.
     exists (node_of top (x, b)), (node_of top (x, b')).
     split; [apply find_h; exact Hb|]. split; [apply find_h'; [apply ne_top_old; exact Hx|exact H2]|].
     assert (Hedge : forall k t t', nth_error (e_jt b) k = Some t -> nth_error (e_jt b') k = Some t' ->
@@ -176,21 +179,40 @@ Proof.
       destruct (in_dec Z.eq_dec t Ss) as [HS|HS].
       - destruct (Q2 HS) as [Ha [i [Hasg Htab]]]. eapply edge_bridge; eauto.
       - rewrite (Q1 HS). apply edge_same. eapply nth_in_keys; eauto. }
-    unfold Compat, node_of. cbn [n_kind n_jt fst snd]. unfold kind_of. rewrite Hkind.
+    unfold Compat, node_of. cbn [n_kind n_jt fst snd]. unfold kind_of.
     pose proof (Hvar x b Hb) as Hv.
     destruct (e_kind b) as [c|a|c v t] eqn:Ek.
-    + destruct (Z.eqb c 100).
+    + rewrite Hkind. destruct (Z.eqb c 100).
       * split; [exact Hlen|exact Hedge].
       * destruct (e_jt b) as [|t1 [|t2 r1]] eqn:Ej; destruct (e_jt b') as [|t1' [|t2' r2]] eqn:Ej'; try discriminate.
         -- left. auto.
         -- right. left. exists t1, t1'. split; [reflexivity|]. split; [reflexivity|]. apply (Hedge 0%nat); reflexivity.
         -- right. right. exists t1, t2, r1, t1', t2', r2. auto.
-    + split; [reflexivity|]. split; [intros p Hpa; unfold Fv; apply Hv; exact Hpa|].
+    + rewrite Hkind. split; [reflexivity|]. split; [intros p Hpa; unfold Fv; apply Hv; exact Hpa|].
       destruct (e_jt b) as [|t1 [|t2 r1]] eqn:Ej; destruct (e_jt b') as [|t1' [|t2' r2]] eqn:Ej'; try discriminate.
       * right. cbn. split; discriminate.
       * left. exists t1, t1'. split; [reflexivity|]. split; [reflexivity|]. apply (Hedge 0%nat); reflexivity.
       * right. cbn. split; discriminate.
-    + exfalso. eapply Hnb. reflexivity.
+    + (* a branching synthetic predecessor: its table follows the successors position by position *)
+      destruct Hkind as [t' [Htr ->]].
+      split; [reflexivity|]. split; [unfold Fv; exact Hv|]. intros z.
+      assert (Hposr : forall k s0 t0, nth_error (e_jt b) k = Some s0 -> nth_error (e_jt b') k = Some t0 ->
+                                      t0 = s0 \/ ~ In t0 (e_jt b)).
+      { intros k s0 t0 Hs0 Ht0. destruct (Hpos k s0 t0 Hs0 Ht0) as [Q1 Q2].
+        destruct (in_dec Z.eq_dec s0 Ss) as [HS|HS]; [right|left; apply Q1; exact HS].
+        destruct (Q2 HS) as [Ha _]. apply Hnojt. exact Ha. }
+      pose proof (table_rewrite_lookup t (e_jt b) (e_jt b') (Hkeys c v t eq_refl) (eq_sym Hlen) Hposr Hndjt t' Htr z) as Hz.
+      unfold proceed. cbn [n_jt].
+      destruct (zassoc z t) as [t0|] eqn:Hzt.
+      * destruct Hz as [Hin0 Hout0]. destruct (zmem t0 (e_jt b)) eqn:Hm.
+        -- apply zmem_In in Hm. apply In_nth_error in Hm as [k Hk].
+           rewrite (Hin0 k Hk).
+           destruct (nth_error (e_jt b') k) as [t0'|] eqn:Hk'.
+           ++ assert (zmem t0' (e_jt b') = true) as -> by (apply zmem_In; eapply nth_error_In; eauto).
+              eapply Hedge; eauto.
+           ++ exfalso. apply nth_error_None in Hk'. assert (k < length (e_jt b))%nat. { apply nth_error_Some. intros Hc. pose proof (eq_trans (eq_sym Hc) Hk) as X. discriminate X. } lia.
+        -- apply zmem_false in Hm. rewrite (Hout0 Hm). exact I.
+      * rewrite Hz. exact I.
   - (* any other block is untouched *)
     assert (Hb' : efind g' x = Some b) by (rewrite (Ho x (old_not_new x Hx) Hnin (old_not_name x Hx)); exact Hb).
     exists (node_of top (x, b)), (node_of top (x, b)).
